@@ -160,7 +160,8 @@ class Ctx:
                 # a chunk that did not fit next to its neighbours: once more, alone, with a large heap (the failing file is kept for inspection)
                 try:
                     os.makedirs(REPLAY, exist_ok=True)
-                    shutil.copy(paths[k], os.path.join(REPLAY, 'heap-%s-%s.ndjson' % (module, self.pid)))
+                    if os.path.getsize(paths[k]) < 200 * 2 ** 20:
+                        shutil.copy(paths[k], os.path.join(REPLAY, 'heap-%s-%s.ndjson' % (module, self.pid)))
                 except Exception:
                     pass
                 self.log('V %s: chunk %d ran out of heap (%d bytes of trace); retried alone with 12g' % (module, k, os.path.getsize(paths[k])))
